@@ -9,6 +9,7 @@ import (
 	_ "embed"
 	"encoding/json"
 	"fmt"
+	"github.com/storacha/go-ucanto/client"
 	"github.com/storacha/go-ucanto/transport"
 	pdm "github.com/storacha/go-ucanto/ucan/datamodel/payload"
 	"github.com/storacha/go-ucanto/ucan/formatter"
@@ -408,6 +409,9 @@ type CWorld struct {
 	Full []delegation.Delegation
 	// channel: when set, batches go to the server through this channel (e.g. the library's HTTP channel)
 	channel transport.Channel
+	// conns: one client connection per channel, kept across the history phases of a case
+	conns  map[transport.Channel]client.Connection
+	connMu sync.Mutex
 }
 
 // fakeSigner claims one DID and signs with another principal's key (or absentee).
